@@ -75,6 +75,10 @@ def senderCloseCloses : Bool := Gen.Merge.pipeSenderCloseStmts.contains "close(s
 def wgInit (k : Nat) : Nat := if Gen.Merge.smWgAdd == "len(in)" then k else 0
 def casGuards : Bool := Gen.Merge.smCasCond == "atomic.CompareAndSwapUint32(&closeOnce,0,1)"
 
+/-- ghost: why a goroutine left its loop -/
+inductive Why | ended | lostCas | wonCas | sendFailed
+  deriving DecidableEq, Repr, Hashable
+
 inductive GPc (V : Type)
   | next                              -- inside `in[i].Next(ctx)`
   | gotErr (e : Err)                  -- `Next` returned a non-End error: at the CAS
@@ -91,6 +95,8 @@ structure G (V : Type) where
   nexts : Nat := 1           -- ghost: `in[i].Next` calls begun
   closes : Nat := 0          -- ghost: `in[i].Close` calls
   nextAfterClose : Bool := false  -- ghost: a `Next` began after a `Close`
+  dropped : List V := []     -- ghost: the item whose `Send` failed (context / receiver / sender closed)
+  why : Option Why := none   -- ghost: why the loop was left
   deriving DecidableEq, Repr, Hashable
 
 inductive CPc
@@ -115,7 +121,7 @@ structure St (V : Type) where
   streamDone : Bool := false
   cpc : CPc := .idle
   errLog : List (Nat × Nat) := []  -- ghost: (input, error) for every injected error returned by a `Next`
-  casLog : List (Nat × Err) := []  -- ghost: (goroutine, error) in the order of the CAS attempts
+  winner : Option (Nat × Err) := none  -- ghost: (goroutine, error) of the CAS that succeeded (the first attempt)
   out : List (Nat × V) := []       -- ghost: items handed to the consumer, tagged with their input
   results : List (Res V) := []     -- ghost: what the consumer's `Next` calls returned, in order
   deriving DecidableEq, Repr, Hashable
@@ -137,6 +143,10 @@ def init (V : Type) (k : Nat) : St V :=
 def setPc {V : Type} (s : St V) (i : Nat) (g : G V) (pc : GPc V) : St V :=
   { s with gs := s.gs.set i { g with pc := pc } }
 
+/-- Goroutine `i` leaves its loop and starts running its deferred calls. -/
+def leave {V : Type} (s : St V) (i : Nat) (g : G V) (w : Why) : St V :=
+  { s with gs := s.gs.set i { g with pc := .exiting exitSeq, why := some w } }
+
 /-- Goroutine `i` calls `in[i].Next` again. -/
 def again {V : Type} (g : G V) : G V :=
   { g with pc := .next, nexts := g.nexts + 1, nextAfterClose := g.nextAfterClose || decide (0 < g.closes) }
@@ -155,7 +165,7 @@ def step {V : Type} (s : St V) : Label V → Option (St V)
   | .inEnd i =>
     match s.gs[i]? with
     | some g => match g.pc with
-      | .next => if Gen.Merge.smEndReturns then some (setPc s i g (.exiting exitSeq)) else none
+      | .next => if Gen.Merge.smEndReturns then some (leave s i g .ended) else none
       | _ => none
     | none => none
   | .inErr i e =>
@@ -175,9 +185,8 @@ def step {V : Type} (s : St V) : Label V → Option (St V)
     | some g => match g.pc with
       | .gotErr e =>
         if casGuards && !s.closeOnce then
-          some { setPc s i g (.won e winSeq) with closeOnce := true, casLog := s.casLog ++ [(i, e)] }
-        else if casGuards then
-          some { setPc s i g (.exiting exitSeq) with casLog := s.casLog ++ [(i, e)] }
+          some { setPc s i g (.won e winSeq) with closeOnce := true, winner := some (i, e) }
+        else if casGuards then some (leave s i g .lostCas)
         else none
       | _ => none
     | none => none
@@ -186,7 +195,7 @@ def step {V : Type} (s : St V) : Label V → Option (St V)
     | some g => match g.pc with
       | .won e (.cancel :: rest) => some { setPc s i g (.won e rest) with cancelled := true }
       | .won e (.closeErr :: rest) => some (senderClose (setPc s i g (.won e rest)) (some e))
-      | .won _ [] => if Gen.Merge.smErrReturns then some (setPc s i g (.exiting exitSeq)) else none
+      | .won _ [] => if Gen.Merge.smErrReturns then some (leave s i g .wonCas) else none
       | _ => none
     | none => none
   | .sendOk i =>
@@ -202,10 +211,10 @@ def step {V : Type} (s : St V) : Label V → Option (St V)
   | .sendFail i =>
     match s.gs[i]? with
     | some g => match g.pc with
-      | .send _ =>
+      | .send v =>
         if ((s.cancelled && sendUsesCtx && sendArmCtx) || (s.streamDone && sendArmStreamDone)
             || (decide (0 < s.senderCloses) && sendArmSenderDone)) && Gen.Merge.smSendErrReturns then
-          some (setPc s i g (.exiting exitSeq))
+          some (leave s i { g with dropped := g.dropped ++ [v] } .sendFailed)
         else none
       | _ => none
     | none => none
